@@ -110,8 +110,49 @@ def r11_2(ctx):
                         ok = (k == 1 and not o.reverse()) or (k == -1 and o.reverse())
                 if not ok:
                     ctx.violation(f"{fname}:HSV:missing-last", f.loc(call), f"{fname}/HSV: a resource without an entry for the task must sort last (its default key must be the worst value)")
-            if (fname, member) == ("sort_task_list", "FIFO") and "READY" not in src:
-                ctx.violation("sort_task_list:FIFO:ready-count", f.loc(call), "FIFO key does not count READY entries of the state log")
+    ctx.end()
+
+
+def r11_7(ctx):
+    """Small concrete inputs through the task sorter: three tasks with known numbers / histories in an order that the documented key
+    must change (ties keep the input order).  Decides the *value* of the key where R11.2 decides which attributes it reads: a FIFO
+    key that counts only part of the READY records, a slack computed from the wrong pair, reads the right attributes and sorts in
+    the right direction, but orders these inputs differently."""
+    ctx.begin("R11.7", "sort_task_list orders small concrete inputs by the documented key (stable for ties)", floor=6)
+    g = ctx.repo.functions["sort_task_list"]
+    R, W, N, Fi = (E(TS, x) for x in ("READY", "WORKING", "NONE", "FINISHED"))
+    names = ["A", "B", "C"]
+    cases = {
+        # attribute values per task (A, B, C) and the expected order when the list is given as [B, A, C]
+        "FIFO": ({"state_record_list": [ListV([R, R, W], True, "list"), ListV([N, N, R], True, "list"), ListV([R, W, R], True, "list")]}, ["A", "C", "B"]),
+        "TSLACK": ({"lst": [Poly.const(5), Poly.const(9), Poly.const(4)], "est": [Poly.const(4), Poly.const(2), Poly.const(3)]}, ["A", "C", "B"]),
+        "EST": ({"est": [Poly.const(2), Poly.const(7), Poly.const(2)]}, ["A", "C", "B"]),
+        "SPT": ({"default_work_amount": [Poly.const(3), Poly.const(8), Poly.const(3)]}, ["A", "C", "B"]),
+        "LPT": ({"default_work_amount": [Poly.const(8), Poly.const(3), Poly.const(8)]}, ["A", "C", "B"]),
+        "LRPT": ({"remaining_work_amount": [Poly.const(6), Poly.const(1), Poly.const(6)]}, ["A", "C", "B"]),
+        "SRPT": ({"remaining_work_amount": [Poly.const(1), Poly.const(6), Poly.const(1)]}, ["A", "C", "B"]),
+    }
+    members = ctx.repo.enums["TaskPriorityRuleMode"]
+    for member, (attrs, want) in cases.items():
+        if member not in members:
+            continue
+        objs = {n: Obj(n, TASK) for n in names}
+        heap = {}
+        for a, vals in attrs.items():
+            for n, v in zip(names, vals):
+                heap[(n, a)] = v
+        I = mk_interp(ctx)
+        outs = I.run_function(g, bind={g.params[0]: ListV([objs["B"], objs["A"], objs["C"]], True, "list"), g.params[1]: E("TaskPriorityRuleMode", member)}, heap=heap)
+        for st, ex in outs:
+            r = ex[1] if ex and ex[0] == "return" else None
+            con = f"sort_task_list:{member}:concrete"
+            if not (isinstance(r, ListV) and all(isinstance(x, Obj) for x in r.items)):
+                raise AnalysisError(f"R11.7: sort_task_list({member}) on a concrete three-task input is not determined ({r!r})")
+            got = [x.name for x in r.items]
+            ctx.instance(con, sample={"input": ["B", "A", "C"], "result": got})
+            if got != want:
+                ctx.violation(con, g.loc(), f"sort_task_list({member}) orders the tasks {got}, the documented key gives {want} "
+                              f"(values: { {a: [repr(v) for v in vs] for a, vs in attrs.items()} }; equal keys keep the input order B, A, C)")
     ctx.end()
 
 
@@ -314,6 +355,7 @@ def r11_6(ctx):
 def run(ctx):
     r11_1(ctx)
     r11_2(ctx)
+    r11_7(ctx)
     r11_3(ctx)
     r11_4(ctx)
     r11_5(ctx)
